@@ -70,6 +70,18 @@ type Holder struct {
 	Refs  []string
 }
 
+// Profile is an exported struct type embedded by value in Account: its fields are promoted.
+type Profile struct {
+	Nick string
+	Rank int
+}
+
+// Account embeds Profile.
+type Account struct {
+	Profile
+	Plan string
+}
+
 // Label implements a Stringer-like value.
 type Label struct{ Text string }
 
@@ -182,6 +194,8 @@ func (v *Val) Build(order int) interface{} {
 		return Label{v.S}
 	case "time":
 		return time.Unix(v.I, 0).UTC()
+	case "account": // Account{Profile{S, I}, "plan-"+S}
+		return Account{Profile: Profile{Nick: v.S, Rank: int(v.I)}, Plan: "plan-" + v.S}
 	case "bytes":
 		return []byte(v.S)
 	case "buffer": // *bytes.Buffer: a value whose own methods (WriteTo, Read, Next) consume it
